@@ -238,6 +238,60 @@ def run_case(case):
             'other': kinds[3], 'sched': sched}
 
 
+def run_mc(case):
+    """call()/wait() on several channels (outside the Coq model; oracle only): a waiter component plus one component per
+    channel with a plain handler of e1; the event is fired on the channels in case['fire']."""
+    log = []
+
+    class e1(Event):
+        pass
+
+    class Waiter(Component):
+        channel = 'app'
+
+        @handler('go')
+        def go(self):
+            if case['op'] == 'call':
+                x = yield self.call(e1(), *case['chans'])
+            else:
+                x = yield self.wait('e1', *case['chans'])
+            log.append(sorted(enc_value(x)))
+
+        @handler('exception')
+        def _on_exc(self, *a, **k):
+            pass
+
+    def mk(ch, v):
+        class C(Component):
+            channel = ch
+
+            @handler('e1')
+            def _e1(self):
+                return v
+        return C()
+
+    app = Waiter()
+    for i, ch in enumerate(sorted(set(case['chans']) | set(case['fire']))):
+        mk(ch, i + 1).register(app)
+    app._executing_thread = threading.current_thread()
+    for _ in range(4):
+        app.tick(0)
+
+    def snap():
+        return {k: len(v) for k, v in getattr(app, '_handlers', {}).items() if v}
+    h0 = snap()
+    app.fire(Event.create('go'))
+    for _ in range(3):
+        app.tick(0)
+    if case['op'] == 'wait':
+        app.fire(e1(), *case['fire'])
+    for _ in range(12):
+        app.tick(0)
+    h1 = snap()
+    diff = sorted([k, h1.get(k, 0) - h0.get(k, 0)] for k in set(h0) | set(h1) if h1.get(k, 0) != h0.get(k, 0))
+    return {'mc': [len(log), diff, len(getattr(app, '_tasks', []))]}
+
+
 # ------------------------------------------------------------------------------------- case generation
 
 TMOS = [0, 1, 3]
@@ -635,6 +689,10 @@ class C06(Prop):
         self.stats = {}
         self._sched = {}
 
+    MC = [{'k': 'mc', 'op': op, 'chans': ch, 'fire': fire}
+          for op in ('call', 'wait') for ch in (['a', 'b'], ['b', 'a'], ['a'])
+          for fire in ([ch[0]], [ch[-1]], list(ch)) if not (op == 'call' and fire != [ch[0]])]
+
     def generate(self, rng, n, tier):
         cases = [gen_case(rng, tier) for _ in range(n)]
         kinds = {}
@@ -647,13 +705,16 @@ class C06(Prop):
                             kinds[key] = kinds.get(key, 0) + 1
                     else:
                         kinds['plain'] = kinds.get('plain', 0) + 1
-        self.stats = {'distribution': {'step_kinds': kinds, 'cases': len(cases),
+        mc = [dict(c) for c in self.MC]
+        self.stats = {'distribution': {'step_kinds': kinds, 'cases': len(cases), 'multi_channel_cases': len(mc),
                                        'with_generate_events': len([c for c in cases if c['gen']]),
                                        'multi_root': len([c for c in cases if len(c['roots']) > 1]),
                                        'rotated_schedules': len([c for c in cases if c['rot'] != [0]])}}
-        return cases
+        return cases + mc
 
     def impl(self, case):
+        if case.get('k') == 'mc':
+            return run_mc(case)
         obs = run_case(case)
         self._sched[common.canon(case)] = obs['sched']
         return obs
@@ -675,6 +736,8 @@ class C06(Prop):
         return '%s %s %s %s %d%%nat' % (prog_lit(case['H']), 'true' if case['gen'] else 'false', scheds, roots, case['n'])
 
     def model_term(self, case):
+        if case.get('k') == 'mc':
+            return None          # several channels: outside the model, oracle only
         return 'hash_run ' + self.model_args(case)
 
     def full_obs(self, case, obs):
@@ -688,6 +751,13 @@ class C06(Prop):
     def oracle(self, case, obs):
         if isinstance(obs, dict) and '__crash__' in obs:
             return None
+        if case.get('k') == 'mc':
+            n, diff, ntasks = obs['mc']
+            if n != 1:
+                return 'multi-channel %s on %r (event on %r): caller resumed %d times' % (case['op'], case['chans'], case['fire'], n)
+            if diff or ntasks:
+                return 'multi-channel %s on %r: residue %r, tasks %d' % (case['op'], case['chans'], diff, ntasks)
+            return None
         bad, stuck = check_trace(case, obs)
         if bad:
             return bad[0]
@@ -696,6 +766,14 @@ class C06(Prop):
         return None
 
     def finding_class(self, case, obs, what):
+        if case.get('k') == 'mc':
+            # class: wait(name, c1, .., ck) with k >= 2 and the event dispatched on none but channels other than ck: never resumed,
+            # exactly its <name> and <name>_done handlers stay
+            if (case['op'] == 'wait' and len(case['chans']) >= 2 and case['chans'][-1] not in case['fire']
+                    and not (isinstance(obs, dict) and '__crash__' in obs)
+                    and obs['mc'] == [0, [['e1', 1], ['e1_done', 1]], 0]):
+                return 'C06-multichannel-wait'
+            return None
         if what.startswith('gen-raise: ') and not (isinstance(obs, dict) and '__crash__' in obs):
             bad, stuck = check_trace(case, obs)
             if not bad and stuck:
@@ -703,6 +781,8 @@ class C06(Prop):
         return None
 
     def nontrivial(self, case, obs):
+        if case.get('k') == 'mc':
+            return True
         return any(st[0] in ('call', 'wo', 'wn') for hs in case['H'].values() for hd in hs if hd['t'] == 'g' for st in hd['st'])
 
     def search(self, rng, tier):
